@@ -2,7 +2,7 @@
 # try_seed.sh <patch.diff> <prop> [<prop>...]: apply the patch to /repo, run the quick checks, undo the patch.
 P=$1; shift
 cd /repo && git apply "$P" || { echo "patch does not apply"; exit 2; }
-trap 'git -C /repo checkout -q -- .' EXIT
+trap 'git -C /repo apply -R "$P" 2>/dev/null; git -C /repo checkout -q -- .' EXIT
 cd /verif
 for pid in "$@"; do
   out=$(VERIF_TIER=${TIER:-quick} ./check $pid --tier ${TIER:-quick} 2>&1)
